@@ -11,6 +11,8 @@ R6 inode-number codec: one shift, one mask, refusal of numbers that do not fit
 R7 the set of operations the VFS does not implement is the tabled one
 R5 (cont.) clone-modify-store: every modified private copy of a mount table is stored back on every normal return
 R8 path walkers: PseudoFs::mount and PseudoFs::path_walk take the same step per component kind (`..` -> parent, name -> child)
+R9 index allocator: allocate_fs_idx skips the pseudo index and occupied slots, returns a free one, gives up only on the second visit of its start
+R5 (cont.) umount cannot fail between unlinking the mount point and vacating its slot
 """
 import json
 import os
